@@ -147,10 +147,19 @@ def gen_chain(rng, prof, force_selflock=None):
                 f = sig(rng.uniform(0, 0.95 * crit), 3) if (force_selflock is False or rng.random() < 0.8) else sig(rng.uniform(0, min(1.0, 2 * crit)), 3)
                 if rng.random() < 0.05:
                     f = rng.choice([0, 0.0])          # a frictionless worm mating (documented range [0, 1])
+            hx_wheel = hx
+            if s == lock_stage and rng.random() < 0.25 and PA_MAX[pa] >= 12:
+                # a self-locking mating in which the WHEEL drives the worm: the flag follows the worm's own (smaller) helix angle,
+                # the efficiency the driving wheel's (larger) one: cos(a) tan(b_worm) < f < cos(a) tan(b_wheel)
+                kind = 'wheelmaster'
+                hx_wheel = sig(rng.uniform(10.0, PA_MAX[pa] - 0.5), 3)
+                hx = sig(rng.uniform(2.0, 0.5 * hx_wheel), 3)
+                c_worm, c_wheel = (math.cos(math.radians(pa)) * math.tan(math.radians(x_)) for x_ in (hx, hx_wheel))
+                f = sig(rng.uniform(c_worm * 1.1, c_wheel * 0.85), 3)
             wg = {'type': 'wormgear', 'name': nm('wg'), 'n_starts': rng.randint(1, 4), 'J': rq(rng, 'InertiaMoment', 1e-7, 1e-5),
                   'helix': Q('Angle', hx, 'deg'), 'pa': Q('Angle', pa, 'deg')}
             ww = {'type': 'wormwheel', 'name': nm('ww'), 'z': rng.randint(10, 60), 'J': rq(rng, 'InertiaMoment', 1e-6, 1e-3),
-                  'helix': Q('Angle', hx, 'deg'), 'pa': Q('Angle', pa, 'deg')}
+                  'helix': Q('Angle', hx_wheel, 'deg'), 'pa': Q('Angle', pa, 'deg')}
             if rng.random() < prof['p_struct']:
                 if rng.random() < 0.8:
                     wg['d'] = rq(rng, 'Length', 4e-3, 3e-2, n=3)
